@@ -349,6 +349,15 @@ def fixed_twins():
         inputs = [M.enc_inputs({"uid": "u%d" % j, "kind": a[0], "value": a[1]}) for j in range(6) for a, _ in rows]
         alts = [M.enc_inputs({"uid": "u%d" % j, "kind": b[0], "value": b[1]}) for j in range(6) for _, b in rows]
         yield {"prog": prog, "classes": {"uid": "any", "kind": "str", "value": "num"}, "inputs": inputs, "alts": alts, "extra": {}, "perm": 0, "newname": "renamed"}
+    # links that are never reached are never evaluated, even when the same test occurs in several of them: a call routed by the
+    # first link does not look at `age` at all
+    adult = M.cmp_(I("age"), ">=", L("18"))
+    prog = M.program("exp", M.if_([(M.cmp_(I("plan"), "==", S("pro")), G("t")), (adult, G("a")), (M.and_(adult, M.cmp_(I("age"), "<", L("65"))), G("b")),
+                                   (M.or_(M.cmp_(I("age"), "<", L("65")), adult), G("c"))], G("e")), salt="s", splitters=["uid"])
+    rows = [(("pro", 30), ("pro", None)), (("pro", 3), ("pro", "n/a")), (("pro", 70), ("pro", (1, 2))), (("free", 30), ("free", 40))]
+    inputs = [M.enc_inputs({"uid": "u%d" % j, "plan": a[0], "age": a[1]}) for j in range(6) for a, _ in rows]
+    alts = [M.enc_inputs({"uid": "u%d" % j, "plan": b[0], "age": b[1]}) for j in range(6) for _, b in rows]
+    yield {"prog": prog, "classes": {"uid": "any", "plan": "str", "age": "num"}, "inputs": inputs, "alts": alts, "extra": {}, "perm": 0, "newname": "renamed"}
     # splitter names that differ only in letter case, in every declaration order
     for k, names in enumerate((["id", "Id", "region"], ["uid", "UID"], ["a", "A", "b", "B"], ["Zeta", "zeta", "ZETA"])):
         prog = M.program("exp", M.ret([(M.lit_str("g%d" % j), "1") for j in range(16)]), salt=None if k % 2 else "s", splitters=names)
